@@ -43,11 +43,12 @@ type c05Case struct {
 }
 
 var c05Subsets = [][]string{{"local"}, {"ntlm"}, {"kerberos"}, {"openid", "local"}, {"openid", "ntlm"}, {"openid", "kerberos"}, {"local", "ntlm"}, {"local", "kerberos"},
-	{"openid", "local", "ntlm"}, {"openid", "local", "kerberos"}}
+	{"openid", "local", "ntlm"}, {"openid", "local", "kerberos"},
+	{"basic"}, {"openid", "basic"}} // "basic" is the other spelling of the local mechanism
 
 var c05Auths = []string{"absent", "empty", "bare:NTLM", "bare:Negotiate", "bare:Basic", "short:NTL", "short:Basi", "short:Negotiat", "lower:ntlm", "lower:basic", "junk", "bearer",
 	"basic-right", "basic-right", "basic-wrong-pass", "basic-unknown-user", "basic-empty-pass", "basic-undecodable", "basic-nocolon", "basic-two-lines-junk-first", "basic-two-lines-right-first",
-	"ntlm-right", "ntlm-right", "ntlm-wrong-pass", "ntlm-unknown-user", "ntlm-type3-first", "ntlm-type3-other-conn", "ntlm-type1-only", "ntlm-garbage", "negotiate-ntlm-right", "negotiate-garbage", "xNTLM-prefix", "krb-valid", "krb-valid", "krb-foreign-key"}
+	"ntlm-right", "ntlm-right", "ntlm-wrong-pass", "ntlm-unknown-user", "ntlm-type3-first", "ntlm-type3-other-conn", "ntlm-again-after-success", "ntlm-again-after-success", "ntlm-type1-only", "ntlm-garbage", "negotiate-ntlm-right", "negotiate-garbage", "xNTLM-prefix", "krb-valid", "krb-valid", "krb-foreign-key"}
 
 func genC05(t *rapid.T) c05Case {
 	c := c05Case{Subset: rapid.SampledFrom(c05Subsets).Draw(t, "subset")}
@@ -109,7 +110,7 @@ func c05Instance(subset []string) (*gwproc.Inst, error) {
 		Set("Server", "Hosts", []string{"127.0.0." + placeholder + ":" + strconv.Itoa(theGrid().P)}).Set("Server", "HostSelection", "roundrobin").
 		Set("Server", "SessionKey", key32a).Set("Server", "SessionEncryptionKey", key32b).
 		Set("Server", "CertFile", c18Cert).Set("Server", "KeyFile", c18Key)
-	if !has(subset, "local") {
+	if !has(subset, "local") && !has(subset, "basic") {
 		cfg.Set("Server", "Tls", "disable")
 	}
 	if has(subset, "openid") {
@@ -261,7 +262,7 @@ func runC05(c c05Case) *Violation {
 	}
 	svc := c05Auth()
 	g := theGrid()
-	local, ntl, krb, openid := has(c.Subset, "local"), has(c.Subset, "ntlm"), has(c.Subset, "kerberos"), has(c.Subset, "openid")
+	local, ntl, krb, openid := has(c.Subset, "local") || has(c.Subset, "basic"), has(c.Subset, "ntlm"), has(c.Subset, "kerberos"), has(c.Subset, "openid")
 	for i, r := range c.Reqs {
 		ws := r.Transport == "ws"
 		c05ConnID = r.ConnID
@@ -358,6 +359,11 @@ func runC05(c c05Case) *Violation {
 			ntlmFlow("NTLM", r.User, pass, true, false)
 		case "ntlm-type3-other-conn":
 			ntlmFlow("NTLM", r.User, pass, false, true)
+		case "ntlm-again-after-success":
+			if v := c05AgainAfterSuccess(in, r, pass, type1, c.Subset); v != nil {
+				return v
+			}
+			continue
 		case "ntlm-type1-only":
 			one("NTLM " + type1)
 		case "ntlm-garbage":
@@ -583,3 +589,73 @@ func TestC05_BIN(t *testing.T) {
 }
 
 var _ = json.Marshal
+
+// c05AgainAfterSuccess: on one keep-alive connection a complete NTLM exchange with the right password (on a request
+// that is not hijacked, so the connection survives), then a further type-3 message without a new challenge: the
+// same message again (Probe "own") or one that names another user but is keyed like the first (Probe "other").
+// The further message proves nothing fresh and must be refused.
+func c05AgainAfterSuccess(in *gwproc.Inst, r c05Req, pass, type1 string, subset []string) *Violation {
+	c, err := gwc.Target{Addr: in.Addr, TLS: in.TLS}.Dial()
+	if err != nil {
+		return nil
+	}
+	defer c.Close()
+	br := bufio.NewReader(c)
+	send := func(auth string) (httpHead, bool) {
+		var sb strings.Builder
+		fmt.Fprintf(&sb, "RDG_IN_DATA %s HTTP/1.1\r\nHost: %s\r\nRdg-Connection-Id: %s\r\nContent-Length: 0\r\n", gwc.GatewayPath, in.Addr, sess.NewConnID())
+		fmt.Fprintf(&sb, "Authorization: %s\r\n\r\n", auth)
+		c.SetDeadline(time.Now().Add(10 * time.Second))
+		if _, err := c.Write([]byte(sb.String())); err != nil {
+			return httpHead{}, false
+		}
+		code, hdr, err := readHead(br)
+		if err != nil {
+			return httpHead{}, false
+		}
+		if cl := hdr["content-length"]; len(cl) > 0 {
+			n, _ := strconv.Atoi(cl[0])
+			io.CopyN(io.Discard, br, int64(n))
+		} else {
+			return httpHead{code, hdr}, false // cannot reuse the connection
+		}
+		return httpHead{code, hdr}, true
+	}
+	h1, ok := send("NTLM " + type1)
+	if !ok || h1.Code != 401 {
+		return nil
+	}
+	chal := h1.Hdr["www-authenticate"]
+	t3 := ntlmType3([]string{"NTLM"}, chal, r.User, pass)
+	if t3 == "" {
+		return nil // NTLM is not offered
+	}
+	h2, ok := send(t3)
+	if !ok || h2.Code == 401 {
+		return nil
+	}
+	again := t3
+	what := "the same authenticate message again"
+	if r.Probe == "other" {
+		other := strconv.Itoa(atoi(r.User)%9 + 1)
+		for _, h := range chal {
+			if raw, err := base64.StdEncoding.DecodeString(strings.TrimPrefix(h, "NTLM ")); err == nil && strings.HasPrefix(h, "NTLM ") {
+				if ch, err := ntlmx.ParseChallenge(raw); err == nil {
+					msg, _, _ := ntlmx.Authenticate(ntlmx.AuthSpec{User: other, Workstation: "WS", Key: ntlmx.NTOWFv2(pass, r.User, ""),
+						ServerChallenge: ch.ServerChallenge, TargetInfo: ch.TargetInfo, Timestamp: []byte{0, 0x80, 0x3e, 0xd5, 0xde, 0xb1, 0x9d, 0x01}, ClientChallenge: []byte{1, 2, 3, 4, 5, 6, 7, 8}})
+					again = "NTLM " + base64.StdEncoding.EncodeToString(msg)
+					what = fmt.Sprintf("an authenticate message naming user %s, keyed with the password of user %s", other, r.User)
+				}
+			}
+		}
+	}
+	h3, ok := send(again)
+	// refused means 401 (or the 500 the gateway gives when the verifier reports an error); getting the very
+	// answer the authenticated request got means the request passed authentication again
+	if h3.Code != 0 && h3.Code != 401 && h3.Code != 500 && h3.Code == h2.Code {
+		return viol("c05/ntlm-accepted-without-fresh-challenge", "enabled %v: after a completed NTLM exchange for user %s (answered %d by the tunnel handler), %s on the same connection, without a new challenge, was answered %d as well instead of being refused",
+			subset, r.User, h2.Code, what, h3.Code)
+	}
+	_ = ok
+	return nil
+}
